@@ -36,8 +36,8 @@ def run(ck):
     #     that contains no delimiter start, in all 6 newline_sequence x keep combinations
     alphabet = [lu.text(ch) for ch in ["a", "_", "{", "%", "#", "}", "r", "n"]]
     k = 4 if quick else 5
-    # quick: 4 of the 6 combinations (every newline_sequence, keep on and off)
-    gcfgs = [cfgs[0], cfgs[1], cfgs[2], cfgs[5]] if quick else cfgs
+    # quick: 3 of the 6 combinations (every newline_sequence, keep on and off)
+    gcfgs = [cfgs[1], cfgs[2], cfgs[5]] if quick else cfgs
     r, recs = lu.run_lexer("C11", "plain", grow=dict(pieces=alphabet, cfgs=gcfgs, max=k, plain=True),
                            coverage=quick, timeout=3000)
     ck.add_tlc(r, f"Lexer (every delimiter-free string <= {k} over 8 characters x {len(gcfgs)} newline configurations)")
